@@ -186,7 +186,7 @@ def human(line):
     return line
 
 
-SEG_ALPHABET = [b"a", b"b", b"{x}", b"{y}", b"{}"]
+SEG_ALPHABET = [b"a", b"b", b"ab", b"{x}", b"{y}", b"{}"]
 
 
 def seg_paths(maxsegs):
@@ -348,6 +348,11 @@ class BDoc:
                 tn = "@pt_" + "_".join(names)
                 self.types[tn] = body
                 body = tn
+                if getattr(self, "by_alias", False):
+                    # the Path names a type that is only another name of the type (twice removed)
+                    self.types[tn + "_alias"] = tn
+                    self.types[tn + "_alias2"] = tn + "_alias"
+                    body = tn + "_alias2"
             nd = n("Path", body=body)
             self.path_nodes[h] = nd
             return [nd]
@@ -458,6 +463,11 @@ def stage_binding(cx):
         d = gen_bdoc(rnd)
         d.by_type = True
         docs.append(("random-by-type", d))
+        if len(docs) % 3 == 0:
+            d2 = gen_bdoc(rnd)
+            d2.by_type = True
+            d2.by_alias = True
+            docs.append(("random-by-alias-of-type", d2))
     for label, d in docs:
         cases.append((label, d, ("ok",)))
     # faulty variants
@@ -526,7 +536,7 @@ def stage_binding(cx):
     for alias_body, target in (("@deep", '{\n  "k": 1\n}'), ("@deep", "[1]"), ("@deep | @deep", '{\n  "k": 1\n}')):
         for spell in ('"x": @alias', '"x": 1 // {type: "@alias"}', '"x": 1 // {or: ["@alias", "integer"]}',
                       # the rule-set form of `or`: the reference sits on the "type" member of an inline rule set
-                      '"x": 1 // {or: [{type: "@alias"}, {type: "integer"}]}', '"x": 1 // {or: [{type: "integer"}, {type: "@alias"}]}'):
+                      '"x": 1 // {or: [{type: "@alias"}, {type: "integer"}]}', '"x": @alias|@deep', '"x": @alias |@deep', '"x": 1 // {or: [{type: "integer"}, {type: "@alias"}]}'):
             e = BDoc([("URL", "/a/{x}", ["GET"])])
             e.body_override[("U", 0)] = "{\n  %s\n}" % spell
             e.extra_types = {"@alias": alias_body, "@deep": target}
